@@ -45,4 +45,14 @@ def main() -> int:
 
 
 if __name__ == "__main__":
-    sys.exit(main())
+    try:
+        rc = main()
+    except SystemExit:
+        raise
+    except BaseException:  # noqa: BLE001 - a crash of the harness itself is never a verdict on the property
+        import traceback
+
+        traceback.print_exc()
+        print("HARNESS-ERROR: the check itself raised (exit 2, no verdict)")
+        rc = 2
+    sys.exit(rc)
